@@ -99,6 +99,9 @@ def normalise_rule(fn):
         for st in lp.body:
             if isinstance(st, ast.AugAssign) and isinstance(st.target, ast.Name) and isinstance(st.op, (ast.Add, ast.Sub)) and atoms(st.value) == "T":
                 shifts[st.target.id] = "+" if isinstance(st.op, ast.Add) else "-"
+            elif isinstance(st, ast.AugAssign) and isinstance(st.target, ast.Name) and isinstance(st.op, (ast.Add, ast.Sub)) and isinstance(st.value, ast.UnaryOp) and isinstance(st.value.op, ast.USub) and atoms(st.value.operand) == "T":
+                # x += -T is x -= T
+                shifts[st.target.id] = "-" if isinstance(st.op, ast.Add) else "+"
             elif isinstance(st, ast.Assign) and len(st.targets) == 1 and isinstance(st.targets[0], ast.Name) and isinstance(st.value, ast.BinOp) and isinstance(st.value.op, (ast.Add, ast.Sub)) and norm(st.value.left) == st.targets[0].id and atoms(st.value.right) == "T":
                 shifts[st.targets[0].id] = "+" if isinstance(st.value.op, ast.Add) else "-"
             else:
@@ -305,22 +308,6 @@ def run(repo, res, tier):
     want_ov = {(F(e1=1, s2=-1), False), (F(e2=1, s1=-1), False)}
     ok = len(forms) == 1 and forms[0][0] is not None and forms[0][0] - INV == want_ov
     res.check("CLOSED", "Interval.overlaps: end >= o.start and o.end >= start (closed)", ok, mod, fn, "Interval.overlaps %s" % [t for _s, t in forms], "intervals that share only an end point (or overlap) are not reported as overlapping, or disjoint ones are", qualname="Interval.overlaps")
-    fn = iv.methods["intersection"]
-    p = fn.args.args[1].arg
-    rets = [n for n in walk_no_nested(fn) if isinstance(n, ast.Return)]
-    none_ret = [r for r in rets if isinstance(r.value, ast.Constant) and r.value.value is None]
-    val_ret = [r for r in rets if not (isinstance(r.value, ast.Constant) and r.value.value is None)]
-    ok = len(none_ret) == 1 and len(val_ret) == 1
-    if ok:
-        g = [(norm(t), pol) for t, pol in dominating_guards(mod, none_ret[0], stop=fn)]
-        ok = ("self.overlaps(%s)" % p, False) in g
-        v = val_ret[0].value
-        ok = ok and isinstance(v, ast.Call) and norm(v.func) in ("Interval", "type(self)") and len(v.args) == 2
-        if ok:
-            a0, a1 = C(v.args[0], fn).replace("other._", "other."), C(v.args[1], fn).replace("other._", "other.")
-            ok = a0 in ("max(self.start, %s.start)" % p, "max(%s.start, self.start)" % p) and a1 in ("min(self.end, %s.end)" % p, "min(%s.end, self.end)" % p)
-    res.check("CLOSED", "Interval.intersection = [max(starts), min(ends)] unless disjoint", ok, mod, fn, "Interval.intersection", "the intersection is not exactly the set intersection", qualname="Interval.intersection")
-
     # ------------------------------------------------------------- IMAGE  (abstract evaluation, sa/strdom.py)
     # The arithmetic methods are evaluated on an interval whose ends are atoms; the result must be a construction
     # through the class with the expected terms as arguments.  Helpers, lambdas, locals, unpacking, conditional
@@ -407,6 +394,38 @@ def run(repo, res, tier):
             if not ((sign == "positive" and keep) or (sign == "negative" and swap) or (sign == "zero" and (keep or swap))):
                 bad.append("%s factor: %s" % (sign, show(r)))
         res.check("IMAGE", "Interval.%s keeps the order for positive and swaps the ends for negative factors" % mn, not bad, mod, fn, "Interval.%s: %s" % (mn, "; ".join(bad)), "scaling by a negative number yields start > end (rejected by the constructor) or the wrong set, or the result bypasses the checking constructor", qualname="Interval." + mn)
+
+    # ------------------------------------------------------------- CLOSED: intersection (abstract evaluation)
+    # order cases of the four end points; the result is compared through the case's valuation (max / min terms and
+    # objects selected by a key are both just values there)
+    from .c04ev import _num
+
+    fn = iv.methods.get("intersection")
+    if fn is None:
+        raise AnalysisError("Interval.intersection missing")
+    s1, e1, s2, e2 = Sym("s1", "num"), Sym("e1", "num"), Sym("s2", "num"), Sym("e2", "num")
+    for label, v in (("disjoint, other to the right", (0, 2, 3, 5)), ("touching in one point", (0, 3, 3, 5)), ("overlapping", (0, 4, 3, 5)), ("other inside", (0, 6, 3, 5)), ("overlapping, other to the left", (3, 5, 0, 4)), ("disjoint, other to the left", (3, 5, 0, 2)), ("equal", (1, 2, 1, 2))):
+        vals = dict(zip(("s1", "e1", "s2", "e2"), v))
+        bad = None
+        try:
+            r, _ev = evaluate(iv, "intersection", [fresh(iv, s2, e2)], fresh(iv, s1, e1), vals=vals)
+            lo, hi = max(v[0], v[2]), min(v[1], v[3])
+            from ..strdom import NONE as _NONE
+
+            if lo > hi:
+                if r is not _NONE:
+                    bad = "gives %s for disjoint intervals" % show(r)
+            elif not constructed(r, iv):
+                bad = "gives %s" % show(r)
+            else:
+                got = (_num(r.args["start"], vals), _num(r.args["end"], vals))
+                if got != (float(lo), float(hi)):
+                    bad = "gives [%s, %s] = [%g, %g] for [%d, %d] and [%d, %d]" % (show(r.args["start"]), show(r.args["end"]), got[0], got[1], v[0], v[1], v[2], v[3])
+        except _Raise as x:
+            bad = "raises %s" % x.what
+        except Undecided as x:
+            raise AnalysisError("Interval.intersection [%s]: %s" % (label, x))
+        res.check("CLOSED", "Interval.intersection [%s] = [max(starts), min(ends)] unless disjoint" % label, bad is None, mod, fn, "Interval.intersection [%s] %s" % (label, bad), "the intersection is not exactly the set intersection", qualname="Interval.intersection")
 
     # ------------------------------------------------------------- REJECT  (abstract evaluation)
     ORDERS = [("both positive", 2, 1), ("positive / zero", 1, 0), ("positive / negative", 1, -1), ("zero / negative", 0, -1), ("both negative", -1, -2)]  # (label, larger, smaller)
